@@ -1703,6 +1703,9 @@ class SpaceUpdater(SharedSpaceOperations):
         )
         self._graph.nodes[node]["space"] = space
         self._graph.nodes[node]["state"] = "created"
+        if not parent.is_model():
+            # ItemSpaces hold copies of the child spaces
+            parent.clear_subs_rootitems()
 
         self._instructions.append(
             Instruction(self._update_derived_space, (node,)))
